@@ -318,8 +318,9 @@ namespace
         else if (less(last_dealloc_prev, memory) && less(memory, last_dealloc))
             // insert before last_dealloc
             return {last_dealloc_prev, last_dealloc};
-        else if (less(memory, last_dealloc))
+        else if (last_dealloc == end_node || less(memory, last_dealloc))
             // insert into [first, last_dealloc_prev]
+            // (last_dealloc may be the end proxy, whose own address says nothing about the position)
             return find_pos_interval(info, memory, begin_node, first, last_dealloc_prev,
                                      last_dealloc);
         else if (greater(memory, last_dealloc))
